@@ -151,7 +151,7 @@ def gen_cases(ctx):
     for el, verts, deg, it in scl:
         d = DIM[fam(el)]
         cases.append({"kind": "scaled", "elem": el, "verts": verts, "poly": star_polygon(rng, rng.random() < 0.5), "h": 1.6 if d == 2 else 2.2, "ext": 1.5, "layers": 1,
-                      "seed": rng.randint(0, 10**6), "field": field(rng, d, deg), "iterative": it, "scales": [1e-9, 1e-6, 1e-3, 1e3],
+                      "seed": rng.randint(0, 10**6), "field": field(rng, d, deg), "iterative": it, "scales": [1e-9, 1e-6, 1e-3, 1e3, 1e6],
                       "motions": ([] if not thorough else motions(rng, d)[:2])})
     # meshes whose groups do not use the coordinate rows in order (orphan rows, permuted numbering, two main groups)
     ren = [("QUAD4", 1, True, ["orphans", "mixed"]), ("TETRA4", 1, False, ["orphans"])]
@@ -235,10 +235,11 @@ def run(ctx):
     evr = attempt("Eval", lambda: T_faces.read_eval_form(ctx.repo))
     afr = attempt("affine-branch", lambda: T_faces.read_affine_branch(ctx.repo))
     pir = attempt("Get_pointsInElem", lambda: T_faces.read_pointin_form(ctx.repo))
+    frr = attempt("_Get_sysCoord_e", lambda: T_faces.read_syscoord_form(ctx.repo))
     ev_form, ev_line = evr if evr is not None else ("tangent", 0)       # placeholders keep Gen_Faces.v well-formed;
     trim, orient, pie_line = pir if pir is not None else ("last1", "tables", 0)   # the C08_cur_* statements are then NOT compiled
     ORIENT["v"] = orient if pir is not None else "unknown"
-    if tabs is not None and evr is not None and afr is not None and pir is not None:
+    if tabs is not None and evr is not None and afr is not None and pir is not None and frr is not None:
         ctx.obligation("translate", True, "%d element classes; Eval form %s (line %d); Get_pointsInElem rows %s / normals %s" % (len(FT), ev_form, ev_line, trim, orient))
     ctx.cov["eval_form"] = ev_form if evr is not None else "rejected"
     ctx.cov["pointin_form"] = [trim, orient] if pir is not None else "rejected"
@@ -252,7 +253,7 @@ def run(ctx):
             dump = json.loads(out)
             open(os.path.join(ctx.build, "Gen_Gauss.v"), "w").write(T_gauss.emit_coq(dump))
             open(os.path.join(ctx.build, "Gen_Elems.v"), "w").write(T_elems.emit_coq(E))
-            open(os.path.join(ctx.build, "Gen_Faces.v"), "w").write(T_faces.emit_coq(FT, ev_form, (trim, orient)))
+            open(os.path.join(ctx.build, "Gen_Faces.v"), "w").write(T_faces.emit_coq(FT, ev_form, (trim, orient), frr))
     # ---- 3a/3b. correspondence (started first, collected after the proofs: it provides the replays for broken obligations) ----
     cases = gen_cases(ctx)
     ctx.log("translated; running %d correspondence cases" % len(cases))
@@ -265,7 +266,7 @@ def run(ctx):
     proofs = {}
     if dump is not None:
         ctx.copy_props("C08/C08_defs.v", "C08/C08_faces.v", "C08/C08_measure.v", "C08/C08_subparam.v", "C08/C08_invmap.v", "C08/C08_pointin.v",
-                       "C08/C08_pointin2d.v", "C08/C08_eval.v", "C08/C08_conform.v", "C08/C08_locate.v", "C08/C08_locate2d.v", "C08/C08_evalpoly.v", "C08/C08_scale.v", "C08/C08_cur_invmap.v", "C08/C08_cur_pointin.v", "C08/C08_measure_thorough.v", "C08/C08_moments_thorough.v")
+                       "C08/C08_pointin2d.v", "C08/C08_eval.v", "C08/C08_conform.v", "C08/C08_locate.v", "C08/C08_locate2d.v", "C08/C08_evalpoly.v", "C08/C08_scale.v", "C08/C08_frame.v", "C08/C08_cur_invmap.v", "C08/C08_cur_pointin.v", "C08/C08_measure_thorough.v", "C08/C08_moments_thorough.v")
         r0 = ctx.coq(["C08_defs.v", "Gen_Elems.v", "Gen_Gauss.v", "Gen_Faces.v"], timeout=300, count=False)
         if not r0.ok:
             ctx.obligation("generated files compile", False, r0.log[-1500:])
@@ -282,7 +283,8 @@ def run(ctx):
                     ctx.log("  %s %s %.1fs" % (f, "ok" if proofs[f].ok else "FAILED", proofs[f].files[-1][2] if proofs[f].files else 0))
             # statements about the source AS FOUND (C08_cur_*): only when the corresponding reader recognised the
             # source (otherwise the `translate:<reader>` violation already says that the property is not shown)
-            chain_a = [("C08_faces.v", None), ("C08_measure.v", "C08_faces.v"), ("C08_scale.v", "C08_measure.v"), ("C08_subparam.v", "C08_measure.v")]
+            chain_a = [("C08_faces.v", None), ("C08_measure.v", "C08_faces.v"), ("C08_scale.v", "C08_measure.v")] + \
+                      ([("C08_frame.v", "C08_measure.v")] if frr is not None else []) + [("C08_subparam.v", "C08_measure.v")]
             chain_b = [("C08_pointin.v", None), ("C08_locate.v", "C08_pointin.v")] + ([("C08_cur_pointin.v", "C08_locate.v")] if pir is not None else []) + \
                       [("C08_pointin2d.v", "C08_pointin.v"), ("C08_locate2d.v", "C08_pointin2d.v"), ("C08_conform.v", None),
                        ("C08_invmap.v", None), ("C08_eval.v", "C08_invmap.v"), ("C08_evalpoly.v", "C08_eval.v")] + \
